@@ -65,6 +65,17 @@ def gen_cases(ctx):
                 case.jobs.append(P.Job('%s_i%d_%s' % (case.name, ii, v.name), case, v, rows))
         cases.append(case)
         n += 1
+    # binders inside expressions of a macro body that carry the name of a call-site variable used in an `expr` argument (finding F25)
+    for name, prog, input_rels in M.binder_capture_programs():
+        rng = random.Random(ctx.rng.getrandbits(48))
+        exp = M.Expander(prog.macros).expand_program(prog)
+        vs = [E.Variant('mac', prog, 'ascent'), E.Variant('exp', exp, 'ascent'), E.Variant('macpar', prog, 'ascent_par')]
+        case = P.Case('kb_' + name, exp, vs, meta={'kind': 'macro', 'stats': call_stats(prog), 'facts': {'known_shape': 'F25'}})
+        for ii in range(4):
+            rows = [('n', (x,)) for x in rng.sample(range(0, 9), rng.randrange(1, 5))]
+            for v in vs:
+                case.jobs.append(P.Job('%s_i%d_%s' % (case.name, ii, v.name), case, v, rows))
+        cases.append(case)
     return cases
 
 
